@@ -31,8 +31,27 @@ def counts(tier):
     return 1200 if tier == "quick" else 20000
 
 
+# vendor forms (Array, Interval) below a statement boundary, for every outer x inner class pair: the dialect that
+# selects ARRAY[..] / the INTERVAL template must be the outermost statement's at every depth
+NESTED_VENDOR = [
+    ("t1 = T('t')\nt2 = T('u')\n"
+     "s1 = Query.from_(t2).select(t2.a).where(t2.c < Interval(hours=2, minutes=3)).where(t2.b.isin(Array(1, 2)))\n"
+     "q2 = Query.from_(t1).select(t1.a).where(t1.a.isin(s1))", "q2"),
+    ("t1 = T('t')\nt2 = T('u')\n"
+     "s1 = Query.from_(t2).select(t2.a, Array(1, 2).as_('arr'), (t2.b + Interval(days=1)).as_('d'))\n"
+     "s0 = Query.from_(s1.as_('sq')).select('a', 'arr')\n"
+     "q2 = Query.from_(s0.as_('sq2')).select('a').join(s1.as_('j1')).on(F('a') == F('b'))", "q2"),
+    ("t1 = T('t')\nt2 = T('u')\n"
+     "q2 = Query.from_(t1).select(t1.a, Array(3)).union(Query.from_(t2).select(t2.a, Array(1, 2)).where(t2.b > Interval(weeks=1)))", "q2"),
+]
+
+
 def generate(rng, n, tier):
     classes = list(QNAMES)
+    for outer in classes:
+        for inner in classes:
+            for script, var in NESTED_VENDOR:
+                yield {"script": script, "var": var, "outer": outer, "inner": inner, "all_classes": False}
     for i in range(n):
         qg = genq.QG(rng, cls="generic", portable=True, inner_same=True, vendor_terms=True, max_depth=2)
         kind = rng.random()
